@@ -67,6 +67,14 @@ Theorem expand_null_only_on_refusal :
 Proof. exact expand_null_only_on_refusal_l. Qed.
 Print Assumptions expand_null_only_on_refusal.
 
+(* under EVERY allocator script (refusals anywhere, memory coming back afterwards): a string that is
+   returned is exactly the expansion - never a truncated or partly built one *)
+Theorem expand_result_is_expansion :
+  forall (e : env) (str : list Z) (o : list bool) (a : st) (d : list Z),
+    nz str -> expand_run e str o = Ok a -> result a = Some d -> d = expand e 0 None str.
+Proof. exact expand_result_is_expansion_l. Qed.
+Print Assumptions expand_result_is_expansion.
+
 (* ---- non-vacuity and regression witnesses (bytes: '$'=36 '~'=126 '/'=47 ':'=58 '='=61) ---- *)
 
 (* X=val; "ab$X$X/~:$Y" : references at offset > 0, adjacent, an unset one, '~' with HOME unset *)
